@@ -353,13 +353,33 @@ func GenOpsT(t *rapid.T, cfg pat.Cfg, pool []string, n int, o GenOpts) ([]Op, []
 			}
 			ops = append(ops, op)
 		}
-		cut := len(pr[0]) + rapid.IntRange(0, min(2, len(pr[1])-len(pr[0]))).Draw(t, "openCut")
-		for cut < len(pr[1]) && !utf8.RuneStart(pr[1][cut]) {
-			cut++
+		if rapid.IntRange(0, 4).Draw(t, "openRemoveTwice") == 0 {
+			// ... or the shorter pattern is removed, and removed again
+			for k := 0; k < 2; k++ {
+				ops = append(ops, Op{Kind: "remove", Pattern: pr[0]})
+			}
+			g.tb.Remove(pr[0])
+			n--
+		} else if have := g.tb.R[pr[0]]; len(have) > 0 && rapid.IntRange(0, 2).Draw(t, "openDrain") == 0 {
+			// ... or the shorter pattern is emptied by naming every method it has: its node stays, because the extension
+			// hangs below it, but it is a route no longer
+			var ms []string
+			for m := range have {
+				ms = append(ms, m)
+			}
+			sort.Strings(ms)
+			op := Op{Kind: "removeMethods", Pattern: pr[0], Methods: ms}
+			g.tb.Remove(pr[0], ms...)
+			ops = append(ops, op)
+		} else {
+			cut := len(pr[0]) + rapid.IntRange(0, min(2, len(pr[1])-len(pr[0]))).Draw(t, "openCut")
+			for cut < len(pr[1]) && !utf8.RuneStart(pr[1][cut]) {
+				cut++
+			}
+			op := Op{Kind: "prefixClean", Prefix: pr[1][:cut]}
+			g.tb.CleanPrefix(op.Prefix)
+			ops = append(ops, op)
 		}
-		op := Op{Kind: "prefixClean", Prefix: pr[1][:cut]}
-		g.tb.CleanPrefix(op.Prefix)
-		ops = append(ops, op)
 		n -= 3
 	}
 	for i := 0; i < n; i++ {
@@ -394,6 +414,10 @@ func GenOpsT(t *rapid.T, cfg pat.Cfg, pool []string, n int, o GenOpts) ([]Op, []
 			via(&op, p)
 			g.tb.Remove(p)
 			ops = append(ops, op)
+			if rapid.IntRange(0, 3).Draw(t, "removeAgain") == 0 {
+				ops = append(ops, op) // the same removal once more: nothing is left to remove, and nothing else may change
+				i++
+			}
 		case k < 17:
 			p, _ := pickLive("rmp")
 			var ms []string
@@ -427,6 +451,10 @@ func GenOpsT(t *rapid.T, cfg pat.Cfg, pool []string, n int, o GenOpts) ([]Op, []
 			via(&op, p)
 			g.tb.Remove(p, ms...)
 			ops = append(ops, op)
+			if rapid.IntRange(0, 3).Draw(t, "removeMethodsAgain") == 0 {
+				ops = append(ops, op)
+				i++
+			}
 		case k < 18:
 			ops = append(ops, Op{Kind: "clean"})
 			g.tb.Clean()
